@@ -460,7 +460,11 @@ def check_ifg_pad(case, ctx):
         if t == 'mask':
             ctx.call(i.mask, np.ones((ny, nx), dtype=bool))
         py, px = case['pad']
-        ctx.call(i.pad, samples=(py, px))
+        if py == px and (ny + nx) % 2:
+            ctx.call(i.pad, samples=int(py))         # documented: int or (int, int)
+            ctx.label('samples-as-int')
+        else:
+            ctx.call(i.pad, samples=(py, px))
         ctx.nt(t != 'none' and (py or px))
         ctx.label('touch:' + t, 'pad' if (py or px) else 'pad0')
         d = np.asarray(i.data)
@@ -473,7 +477,12 @@ def check_ifg_pad(case, ctx):
         U.check_close(y, np.broadcast_to((U.cvec(oy) * dx)[:, None], d.shape), 1e-12, 'Interferogram.pad:y', 'y grid after pad')
         ctx.require(x[0, ox // 2] == 0 and y[oy // 2, 0] == 0, 'Interferogram.pad:zero', 'no exact zero at n//2 after pad')
         # the polar grids follow (they may have been evaluated, and cached, before the pad)
-        r, tt = np.asarray(ctx.call(getattr, i, 'r')), np.asarray(ctx.call(getattr, i, 't'))
+        if (ny + px) % 2:       # either polar grid may be the first one asked for
+            tt = np.asarray(ctx.call(getattr, i, 't'))
+            r = np.asarray(ctx.call(getattr, i, 'r'))
+            ctx.label('t-read-first')
+        else:
+            r, tt = np.asarray(ctx.call(getattr, i, 'r')), np.asarray(ctx.call(getattr, i, 't'))
         U.check_shape(r, d.shape, 'Interferogram.pad:r-shape', 'r after pad (coordinates touched before: %s)' % t)
         U.check_shape(tt, d.shape, 'Interferogram.pad:t-shape', 't after pad (coordinates touched before: %s)' % t)
         U.check_close(r, np.hypot(x, y), 1e-12, 'Interferogram.pad:r', 'r != hypot(x, y) after pad (coordinates touched before: %s)' % t)
